@@ -447,6 +447,16 @@ pub fn run(scn: &Value) -> Value {
             .map(|x| (x["req"].as_u64().unwrap(), x["kind"].as_str().unwrap().to_string()))
             .collect();
     }
+    // versions written by another implementation: raw documents put on the reference server's chain before anything runs
+    if let Some(pre) = scn.get("preload").and_then(|v| v.as_array()) {
+        let mut stm = st.borrow_mut();
+        for text in pre {
+            let parent = stm.chain.last().map(|v| v.1).unwrap_or(Uuid::nil());
+            stm.nver += 1;
+            let vid = uuid_of(1000 + stm.nver);
+            stm.chain.push((parent, vid, text.as_str().unwrap_or("").as_bytes().to_vec()));
+        }
+    }
     let storages: Vec<InMemoryStorage> = (0..nrep).map(|_| InMemoryStorage::new()).collect();
     let plans: Vec<_> = storages.iter().map(|s| s.plan.clone()).collect();
     let mut reps: Vec<Replica<InMemoryStorage>> = storages.into_iter().map(Replica::new).collect();
